@@ -55,7 +55,7 @@ CLAIMED = {
          "§5 C12"),
  "C15": ("Two-register SelectStatement state machine in TLA+ (Take.tla over the Stmt.tla builder model: take, clone, clear/reset, calls on either register) explored by TLC with invariants and a non-interference action property; all histories replayed on the real builder with ==, renderings and clause-free reference statements recorded per step; validated by TLC",
          "Model checking of all histories of <= 3 steps over 50 actions on two statement registers, plus trace validation of the real SelectStatement on those and on random long histories: after take the taken statement equals and renders as the statement before and the source equals a new one; a clone equals its source; a step on one register never changes the other's value or rendering; a clear operation yields exactly the statement rebuilt without that clause (== and token-equal rendering).",
-         "Trusted: TLC; the crate's PartialEq as the notion of statement equality. Schema-statement take() is not yet replayed.",
+         "Trusted: TLC; the crate's PartialEq as the notion of statement equality (Debug text for the schema statements, which have no PartialEq).",
          "§5 C15"),
  "C18": ("hashable_value's hand-written Eq/Hash as an abstract relation over named payload classes (ValueEq.tla); TLC checks reflexivity, symmetry, transitivity, variant separation and Eq => equal hash key on all triples of the pool; every pair of the real pool is compared (==, Hash, HashSet, ValueTuple) and validated by TLC, symmetry/transitivity also on the recorded matrix",
          "Model checking over all 79^3 triples of the abstract pool plus trace validation of the real Value::eq / Hash on the full 79 x 79 matrix (every variant incl. feature types, NULLs, +0/-0, NaN payloads, JSON key order, decimal scales, arrays and nested arrays).",
@@ -73,6 +73,14 @@ CLAIMED = {
          "Trace validation over the portable part of the TLC-generated statement space: after translating nothing but lexical spelling and the documented function substitutions the MySQL and PostgreSQL renderings must be token-equal to the SQLite rendering (MySQL NULLS emulation excepted), and inline and parameterised forms of all three, executed on SQLite over the fixture, must return identical rows and table contents — which validates the NULLS FIRST/LAST emulation.",
          "Trusted: SQLite as execution proxy for the transliterated MySQL/PostgreSQL texts (engine-specific semantics not observed); TLC; Portable(s).",
          "§5 C09"),
+ "C13": ("SqliteCatalog.tla: the database catalogue as a state machine stepped by the declared schema statements (SQLite's affinity rules, rowid-alias rule, automatic indexes, PRAGMA shapes); TLC generates the declaration space; the real SQLite executes the crate's renderings and its PRAGMA dumps are validated by TLC against the model state after every step",
+         "Trace validation with the real engine in the loop: for every generated declaration history (40 column types x 20 specification lists x table-level keys / indexes / foreign keys / checks x follow-up ALTER / INDEX / RENAME / DROP statements) the SQLite rendering must execute, and the engine's own catalogue (columns, nullability, defaults, primary key positions, constraint indexes, explicit indexes with direction / uniqueness, foreign keys with actions, AUTOINCREMENT, checks, type affinity) must equal the catalogue model stepped on the declarations.",
+         "Trusted: SQLite 3.40.1 PRAGMA output; TLC; the catalogue rules in SqliteCatalog.tla (they are compared with the engine on every run). No implementation-level model of the DDL renderer.",
+         "§5 C13, Appendix C.4"),
+ "C14": ("EngineDDL.tla: DDL grammars and data-type tables of MySQL and PostgreSQL; SchemaLaw!DdlReasons compares the parsed rendering with the declaration; TLC generates the declaration space and validates every recorded MySQL / PostgreSQL rendering",
+         "Trace validation of the MySQL / PostgreSQL renderings of the TLC-generated declaration histories: CREATE TABLE elements in declaration order with one dialect-defined type per column (parameters / UNSIGNED / serial types) and each specification once, table-level indexes / foreign keys / checks, ALTER TABLE actions complete and correctly separated (PostgreSQL's per-specification sub-clauses), index / foreign-key / type statements in the dialect's form.",
+         "Trusted: the transcribed MySQL 8.0 / PostgreSQL 15 DDL grammars and type tables (no engine available); TLC. Table options are not compared.",
+         "§5 C14"),
 }
 NA = {
  "C20": "Type-level fact about Rust auto-traits decided only by rustc's trait solver; no state, transition or observable behaviour to model or trace (DESIGN.md §5 C20).",
